@@ -4,6 +4,7 @@ import (
 	"encoding/hex"
 	"fmt"
 	"sort"
+	"strings"
 	"sync"
 	"sync/atomic"
 	"time"
@@ -487,6 +488,8 @@ func (ex *Explorer) Choose(n int, why string) int {
 		kind = "m"
 	} else if why == "env" {
 		kind = "e"
+	} else if strings.HasPrefix(why, "select") {
+		kind = "s" // scheduling decision (which ready select case fires): not reproducible by a tape
 	}
 	t := ex.in.newInput(kind, 8)
 	ex.Assume(bvCmp("bvult", t, Const(8, uint64(n))))
